@@ -412,7 +412,12 @@ def _red(rng, nb, mode):
     return (1,) + nb[1:]
 
 
-def instances(rng, batch, n, mode="full", psd=False, only_cpat=False):
+RPAT = {"Dense", "Dense<psd>", "Diag", "Toeplitz", "Sum(Toeplitz,Diag)", "AddedDiag(Dense<psd>,Diag)", "Matmul(Dense,Dense)",
+        "Interpolated(Dense)", "BlockDiag(Dense<psd>)", "SumBatch(Dense<psd>)", "Kronecker(Dense<psd>,Dense<psd>)", "Masked(Dense)",
+        "ConstantMul(Dense<psd>)", "Chol", "LowRankRootAddedDiag", "Mul(Root,Root)"}
+
+
+def instances(rng, batch, n, mode="full", psd=False, only_cpat=False, rpat_only=False):
     """Catalogue.  `mode`: "full" (every leaf has the node's batch shape) or "bcast" (leaves have smaller,
     broadcastable batch shapes and reach the constructors as expanded stride-0 views)."""
     B = tuple(batch)
@@ -435,13 +440,13 @@ def instances(rng, batch, n, mode="full", psd=False, only_cpat=False):
     def add(name, fn, psd_=False, exact=True, sym_prefix=("S",), cpat=False):
         if psd and not psd_:
             return
-        if only_cpat and not cpat:
+        if only_cpat and not ((cpat and not rpat_only) or name in RPAT):
             return
         c = Ctx()
         node = fn(c, B)
         sym = [k for k in c.leaves if k[0] in sym_prefix]
         inst = Inst(name, node, c.leaves, B, psd=psd_, exact=exact, sym=sym)
-        if cpat:
+        if cpat or only_cpat:
             try:  # the constructor / `op * c` route may refuse a pattern: then it is not an instance
                 inst.build(inst.params())
             except Exception:
